@@ -1,6 +1,6 @@
 //! Async WAL implementation using tokio for non-blocking I/O.
 
-use super::{DurabilityMode, WalConfig, WalRecord};
+use super::{DurabilityMode, WalConfig, WalManager, WalRecord};
 use grafeo_common::types::{EpochId, TxId};
 use grafeo_common::utils::error::{Error, Result};
 use std::path::{Path, PathBuf};
@@ -97,6 +97,14 @@ impl AsyncWalManager {
             background_sync_handle: Mutex::new(None),
             shutdown_tx: Mutex::new(None),
         };
+
+        // Recovery stops reading a file at its first torn or corrupt record, so
+        // anything appended behind such bytes would never be replayed: cut them
+        // off before the file is opened for appending (as the sync manager does).
+        let active_path = manager.log_path(max_sequence);
+        tokio::task::spawn_blocking(move || WalManager::truncate_invalid_tail(&active_path))
+            .await
+            .map_err(|e| Error::Internal(e.to_string()))??;
 
         // Open or create the active log
         manager.ensure_active_log().await?;
